@@ -43,4 +43,22 @@ PROPS = {
         explanation="Theorems C08_* hold for every Time, count, unit and every history of operations; figures describe the differential run.",
         trusted_base=TB_COMMON, assumptions=ASSUME_COMMON,
     ),
+    "C02": dict(
+        cases_mod="CasesArith", check_fn="check_C02",
+        rule="days: range ends, era boundary, epoch +-8; 25 Dec..7 Jan and quarter/month ends of years -30..30, 1990..2035 and century years; random days; DateTimes with offsets (local day differs from UTC day); set_day_of_year over days x {0,1,2,59,60,61,173,174,193,194,365,366,367,2^32-1,random}. Observed: weekday(), day_of_year(), format w/q/e/eeeeeee/D. Non-trivial: every case (dt_info only with a non-zero offset).",
+        explanation="Theorems C02_* hold for every integer day number (the ISO-week theorem by a complete in-kernel sweep of one 400-year cycle lifted by a periodicity lemma); figures describe the differential run.",
+        trusted_base=TB_COMMON, assumptions=ASSUME_COMMON,
+    ),
+    "C05": dict(
+        cases_mod="CasesArith", check_fn="check_C05",
+        rule="start dates: month ends, 29 Feb (AD and BC leap years), era boundary years -8..8, range-end years, random; N from {0,1,2,5,11,12,13,24,1200,...,141110663..5 (range in months), 2^31-1, 2^31, 2^32-1} and random u32; add/sub months/years on Date and DateTime (time of day and offset must be kept). Thorough adds every day of years -3..3, 2019..2021, 2024 x N in 0..=60 x 4 operations. Non-trivial: N != 0.",
+        explanation="Theorems C05_* hold for every day number and every (signed) count; figures describe the differential run.",
+        trusted_base=TB_COMMON, assumptions=ASSUME_COMMON,
+    ),
+    "C07": dict(
+        cases_mod="CasesArith", check_fn="check_C07",
+        rule="ordered pairs of dates: special dates (month ends, leap days, era boundary, range ends) paired with dates within +-70 / +-800 days, exact offsets of 28..31/365/366 days, independent draws; DateTime pairs differing only in nanoseconds; both directions observed (antisymmetry). Thorough adds a seed-determined seventh of all ordered pairs inside [-0002-01-01,0002-12-31] and [2023-11-01,2024-04-30]. Non-trivial: operands differ.",
+        explanation="Theorems C07_* hold for all pairs of (day, nanosecond) values; figures describe the differential run.",
+        trusted_base=TB_COMMON, assumptions=ASSUME_COMMON,
+    ),
 }
